@@ -52,10 +52,9 @@ func groupIn(g string, groups []string) bool {
 	return false
 }
 
-// CuratedC20Cases lists the curated enumeration pool. In the quick tier each
-// (path, home doc, entry point, silent) gets one context variant, rotating;
-// the thorough tier takes all variants and, for each path, every compatible
-// document.
+// CuratedC20Cases lists the curated enumeration pool: each (path, home doc,
+// entry point, silent) with every context variant; the thorough tier adds,
+// for each path, every other compatible document with one rotating variant.
 func CuratedC20Cases(thorough bool) []C20Case {
 	var cases []C20Case
 	rot := 0
@@ -72,7 +71,7 @@ func CuratedC20Cases(thorough bool) []C20Case {
 			for _, kind := range c20Kinds {
 				for _, silent := range []bool{false, true} {
 					variants := c20Variants
-					if !thorough || !home {
+					if !home {
 						variants = c20Variants[rot%len(c20Variants) : rot%len(c20Variants)+1]
 					}
 					for _, v := range variants {
